@@ -112,6 +112,9 @@ func (c CodecProto) ReadNext(b []byte, r io.Reader, limit int) ([]byte, int, err
 			}
 			n, err := r.Read(b[len(b):cap(b)])
 			b = b[:len(b)+n]
+			if n > 0 && err == io.EOF {
+				err = nil // consume the data returned with EOF first
+			}
 			if err != nil {
 				return b, 0, err
 			}
@@ -209,6 +212,9 @@ func (c CodecJSON) ReadNext(b []byte, r io.Reader, limit int) ([]byte, int, erro
 			}
 			n, err := r.Read(b[len(b):cap(b)])
 			b = b[:len(b)+n]
+			if n > 0 && err == io.EOF {
+				err = nil // consume the data returned with EOF first
+			}
 			if err != nil {
 				return b, 0, err
 			}
